@@ -1209,7 +1209,9 @@ async def traverse_resource(
             raise AssertionError(f"invalid depth {depth!r}")
         if COLLECTION_RESOURCE_TYPE in resource.resource_types:
             for child_name, child_resource in members_fn(resource):
-                child_href = urllib.parse.urljoin(href, child_name)
+                # href ends in a slash here. Don't use urljoin(): member
+                # names may contain "#", "?" or leading spaces.
+                child_href = href + child_name
                 todo.append((child_href, child_resource, nextdepth))
 
 
@@ -1693,8 +1695,8 @@ class PostMethod(Method):
             return Response(status=507, reason="Insufficient Storage")
         except ResourceLocked:
             return Response(status=423, reason="Resource Locked")
-        href = environ["SCRIPT_NAME"] + urllib.parse.urljoin(
-            ensure_trailing_slash(path), urllib.parse.quote(name)
+        href = environ["SCRIPT_NAME"].rstrip("/") + urllib.parse.quote(
+            ensure_trailing_slash(path) + name
         )
         return Response(headers={"Location": href})
 
